@@ -14,7 +14,7 @@
 Require Import Arith List Bool QArith Qcanon.
 From TK Require Import Mat_Sums Mat_Core Mat_Qc Mat_EigSelect Spectral_KyFan Pencil_Model Pencil_Spec
      Pencil_Proof_Sums Pencil_Proof Pencil_Proof_Rot Pencil_Proof_KyFan Pencil_Proof_Qc
-     EigSelect Pencil_Proof_Tie Pencil_Proof_Unique.
+     EigSelect Pencil_Proof_Tie Pencil_Proof_Unique Pencil_Proof_Embed.
 Import ListNotations.
 Local Open Scope F_scope.
 
@@ -398,6 +398,59 @@ Print Assumptions embedding_centred.
 
 Example embedding_centred_nonvacuous : @of_nat Qc QcOps 4 <> 0.
 Proof. exact (Qc_of_nat_neq0 4 (Nat.neq_succ_0 3)). Qed.
+
+(* ---------- 6b. end to end: the model of the three embed() bodies, for EVERY solver oracle ---------- *)
+(* embed_correct D d N X A B r :=  A P = B P diag(lam) /\ P^T B P = I  (P = e_proj r, lam = e_vals r)
+     /\ e_mean r = sample mean /\ e_emb r = P^T (x - mean) /\ (N <> 0 -> columns of e_emb sum to 0)
+     /\ tr(P^T A P) = lam_0+..+lam_{d-1} /\ forall B-orthonormal Q, tr(P^T A P) <= tr(Q^T A Q)       *)
+Theorem npe_end_to_end :
+  forall (F : Type) (Fo : FieldOps F) (Ff : IsField F) (Fle : OrderedField F)
+         D d N (X : mat F) (W : sparse F) oracle V lam,
+    indices_ok N W -> (d <= D)%nat ->
+    oracle (seen (npe_repaired X N W)) = (V, lam) ->
+    full_contract D (p_lhs (seen (npe_repaired X N W))) (p_rhs (seen (npe_repaired X N W))) V lam ->
+    ascending D lam ->
+    exists r, npe_embed oracle D d N X W = Ok r /\
+              embed_correct D d N X (XMXt N X (sym2 (dense_of W))) (XMXt N X mI) r.
+Proof. exact (@npe_embed_correct). Qed.
+Print Assumptions npe_end_to_end.
+
+Theorem lltsa_end_to_end :
+  forall (F : Type) (Fo : FieldOps F) (Ff : IsField F) (Fle : OrderedField F)
+         D d N (X : mat F) (W : sparse F) oracle V lam,
+    of_nat N <> 0 -> indices_ok N W -> (d <= D)%nat ->
+    oracle (seen (lltsa_centred X N W)) = (V, lam) ->
+    full_contract D (p_lhs (seen (lltsa_centred X N W))) (p_rhs (seen (lltsa_centred X N W))) V lam ->
+    ascending D lam ->
+    exists r, lltsa_embed oracle D d N X W = Ok r /\
+              embed_correct D d N X (XMXt N (centred X N) (sym2 (dense_of W))) (XMXt N X (Jn N)) r.
+Proof. exact (@lltsa_embed_correct). Qed.
+Print Assumptions lltsa_end_to_end.
+
+Theorem lpp_end_to_end :
+  forall (F : Type) (Fo : FieldOps F) (Ff : IsField F) (Fle : OrderedField F)
+         D d N (X : mat F) (L : sparse F) (dv : vec F) oracle V lam,
+    indices_ok N L -> (d <= D)%nat ->
+    oracle (seen (lpp_repaired X N L dv)) = (V, lam) ->
+    full_contract D (p_lhs (seen (lpp_repaired X N L dv))) (p_rhs (seen (lpp_repaired X N L dv))) V lam ->
+    ascending D lam ->
+    exists r, lpp_embed oracle D d N X L dv = Ok r /\
+              embed_correct D d N X (XMXt N X (sym2 (dense_of L))) (XMXt N X (mdiag dv)) r.
+Proof. exact (@lpp_embed_correct). Qed.
+Print Assumptions lpp_end_to_end.
+
+Theorem embed_target_dimension_beyond_features :
+  forall (F : Type) (Fo : FieldOps F) D d N (X : mat F) (p : pencil F) oracle,
+    (D < d)%nat -> embed_body oracle p D d N X = OOB 3 d D.
+Proof. exact (@embed_body_out_of_range). Qed.
+Print Assumptions embed_target_dimension_beyond_features.
+
+Example end_to_end_nonvacuous :
+  indices_ok 2 eW /\ (1 <= 2)%nat /\
+  (fun _ : pencil Qc => (eV, elam)) (seen (npe_repaired eX 2 eW)) = (eV, elam) /\
+  full_contract 2 (p_lhs (seen (npe_repaired eX 2 eW))) (p_rhs (seen (npe_repaired eX 2 eW))) eV elam /\
+  ascending 2 elam.
+Proof. exact (conj eW_ok (conj (le_S 1 1 (le_n 1)) (conj eq_refl (conj e_full_contract e_ascending)))). Qed.
 
 (* ---------- 7. the extracted decision procedure and the extracted model ---------- *)
 Theorem spec_decision_sound :
